@@ -61,6 +61,19 @@ Theorem C14_refcount : forall sch p,
 Proof. exact refcount_exact. Qed.
 Print Assumptions C14_refcount.
 
+(* a session establishment that FAILS next to established siblings (the buffer manager of a path is shared
+   process-wide): the error path gives back exactly the reference it took — no session changes, every
+   path keeps its count, while anybody holds the path nothing is unmapped and the entry stays; and when
+   nobody does, no stale entry is left for the next establishment *)
+Theorem C14_failed_open_neutral : forall w p,
+  WInv w ->
+  let w' := step w (LOpenFail p) in
+  ss w' = ss w /\ (forall p', refcount p' w' = refcount p' w) /\
+  (1 <= holders p (ss w) -> unmaps w' = unmaps w /\ tbl_get p (tbl w') = tbl_get p (tbl w)) /\
+  (tbl_get p (tbl w) = None -> tbl_get p (tbl w') = None) /\ WInv w'.
+Proof. exact failed_open_neutral. Qed.
+Print Assumptions C14_failed_open_neutral.
+
 (* "no user thread touches the queue after it was unmapped" — false: there is no hand-shake between
    the posted cleanup and a thread that is already past Flush's state check *)
 Definition C14_no_access_after_unmap_full : Prop := no_access_after_unmap_full.
@@ -75,8 +88,8 @@ Print Assumptions C14_no_access_after_unmap_partial.
 (* non-vacuity: two sessions share manager 7; the first is closed twice and by the remote side, the
    second once; the manager is unmapped exactly once, by the last one *)
 Example C14_example_run :
-  let w := run [LOpen 7 100 2; LOpen 7 101 1; LCbBegin 0 1; LClose 0; LClose 0; LRemote 0; LLambda 0; LLambda 0;
-                LCbEnd 0 1; LRemote 1; LLambda 1] init in
-  map sess_released (ss w) = [true; true] /\ unmaps w = [7] /\ qunmaps w = [100; 101] /\ tbl w = [] /\ faults w = O /\
+  let w := run [LOpen 7 100 2; LOpen 7 101 1; LOpenFail 7; LCbBegin 0 1; LClose 0; LClose 0; LRemote 0; LLambda 0; LLambda 0;
+                LCbEnd 0 1; LRemote 1; LLambda 1; LOpenFail 7] init in
+  map sess_released (ss w) = [true; true] /\ unmaps w = [7; 7] /\ creates w = [7; 7] /\ qunmaps w = [100; 101] /\ tbl w = [] /\ faults w = O /\
   map (fun s => map st_state (streams s)) (ss w) = [[c_streamClosed; c_streamHalfClosed]; [c_streamClosed]].
 Proof. vm_compute. repeat split. Qed.
